@@ -256,6 +256,24 @@ static string opXFs(const vector<string> &f) {
     return o.str();
 }
 
+static string opXBig(const vector<string> &f) {
+    string txt = unhx(f[1]);
+    vector<long> qi = ints(f[2]), qv = ints(f[3]);
+    Obs o;
+    fileseq::Status st;
+    fileseq::FrameSet fs(txt, &st);
+    if (!st || !fs.isValid()) {
+        o.add("valid", "0");
+        return o.str();
+    }
+    o.add("valid", "1");
+    o.add("len", (long)fs.length());
+    o.add("start", fs.start());
+    o.add("fin", fs.end());
+    addQueries(o, fs, qi, qv);
+    return o.str();
+}
+
 static string opXF2R(const vector<string> &f) {
     vector<long> fr = ints(f[1]);
     fileseq::Frames frames(fr.begin(), fr.end());
@@ -512,6 +530,7 @@ static string runOp(const string &line) {
     try {
         if (f[0] == "x.fs" && f.size() == 5) return opXFs(f);
         if (f[0] == "x.f2r" && f.size() == 4) return opXF2R(f);
+        if (f[0] == "x.big" && f.size() == 4) return opXBig(f);
         if (f[0] == "x.padrange" && f.size() == 3) return opXPadRange(f);
         if (f[0] == "x.pad" && f.size() == 3) return opXPad(f);
         if (f[0] == "x.padsize" && f.size() == 3) return opXPadSize(f);
